@@ -28,6 +28,8 @@ func specC04() *propertySpec {
 			{"C04-R4.4", "discard-taint: state written by (*repeat).reject influences later draws only through the discard flag, the net-zero count, or a replay-neutral forced stop", ruleC04R44},
 			{"C04-R4.5", "stateless-retries: loops that discard attempts (find, genUintN*) carry no state across attempts except a bounded try counter", ruleC04R45},
 			{"C04-R4.6", "discard-means-unused: at every endGroup with a computed discard flag, the value produced in the group is returned only on paths where the flag is false; the element of a rejected collection step is never accumulated (shared with C03-R2)", func(r *Run) { ruleC04R46(r); ruleC03R2(r) }},
+			{"C04-R4.7", "rejected-try-leaves-no-trace: an attempt of find that may be discarded does not modify the T it is drawn from unless it aborts the test case (the verdict must not depend on discarded bits)", ruleC04R47},
+			{"C04-R4.8", "retry-in-place-only-without-bits: a Repeat action is retried inside the same (kept) step only if it has drawn nothing from the bitstream; otherwise the step is rejected and discarded", ruleC04R48},
 			{"C04-R5", "prune-removes-exactly-discards: prune removes group i only under groups[i].discard; removeGroup deletes data[g.begin:g.end] and rebases by g.end-g.begin", ruleC04R5},
 		},
 	}
@@ -784,4 +786,175 @@ func holdsSuffix(facts []rel, suffix, val string) bool {
 		}
 	}
 	return false
+}
+
+func ruleC04R47(r *Run) {
+	p := r.P
+	// attempt functions: everything bound to find's gen parameter
+	find := r.MustFn("find")
+	if find == nil {
+		return
+	}
+	var gens []*ssa.Function
+	for _, f := range p.funcValuesOf(paramNamed(find, "gen"), 0, map[ssa.Value]bool{}) {
+		if strings.HasSuffix(f.Name(), "$bound") {
+			for _, cs := range p.calls(f) {
+				if sc := cs.Common.StaticCallee(); sc != nil && p.inRapid(sc) {
+					if o := sc.Origin(); o != nil {
+						sc = o
+					}
+					gens = append(gens, sc)
+				}
+			}
+			continue
+		}
+		gens = append(gens, f)
+	}
+	r.Floor("attempt functions passed to find", len(gens), 4)
+	for _, g := range gens {
+		name := p.fnName(g)
+		// the T parameter the attempt is drawn from
+		var outer *ssa.Parameter
+		for _, pa := range g.Params {
+			if isPtrToNamed(pa.Type(), "T") {
+				outer = pa
+			}
+		}
+		if outer == nil {
+			continue
+		}
+		n := 0
+		for _, cs := range p.calls(g) {
+			sc := cs.Common.StaticCallee()
+			if sc == nil || !strings.HasPrefix(p.fnName(sc), "(*T).") {
+				continue
+			}
+			if p.resolve(cs.Recv()) != ssa.Value(outer) {
+				continue
+			}
+			n++
+			key := p.fnName(sc)
+			switch key {
+			case "(*T).Logf", "(*T).Log", "(*T).shouldLog":
+				r.OK(name+"#outer."+key, cs.Instr.Pos(), "logging only")
+			default:
+				// allowed only if the callee never returns after modifying the T: its (*T).fail calls are fatal
+				ok, why := true, ""
+				mods := 0
+				if o := sc.Origin(); o != nil {
+					sc = o
+				}
+				for f := range p.closureOf([]*ssa.Function{sc}) {
+					for _, fa := range p.fieldAccesses("T") {
+						if fa.Fn == f && fa.Kind == "write" {
+							mods++
+						}
+					}
+				}
+				for _, fc := range p.callsTo(sc, "(*T).fail") {
+					now, isC := constBool(p.resolve(fc.Arg(0)))
+					if !isC || !now {
+						ok, why = false, key+" transfers the failure non-fatally (fail(false, …)) and returns"
+					}
+				}
+				if mods > 0 && len(p.callsTo(sc, "(*T).fail")) == 0 {
+					ok, why = false, key+" modifies the T and returns"
+				}
+				r.Check(name+"#outer."+key, cs.Instr.Pos(), ok, "the only change to the T the attempt is drawn from aborts the test case (fatal transfer): a discarded attempt leaves no trace",
+					"an attempt of find can be rejected (its bits discarded) after "+why+": the verdict then depends on bits that prune() deletes, so the reported (pruned) test case does not reproduce the failure")
+			}
+		}
+		_ = n
+		// direct stores to fields of the outer T
+		for _, fa := range p.fieldAccesses("T") {
+			if fa.Fn == g && fa.Kind == "write" && p.resolve(fa.FA.X) == ssa.Value(outer) {
+				r.Fail(name+"#outer-store."+fa.Field, fa.Instr.Pos(), "an attempt of find stores to "+fa.Field+" of the T it is drawn from")
+			}
+		}
+	}
+}
+
+func ruleC04R48(r *Run) {
+	p := r.P
+	cl := p.Fn("runAction$1")
+	ex := r.MustFn("(*stateMachine).executeAction")
+	if cl == nil || ex == nil {
+		if cl == nil {
+			r.Undecided("anchor:runAction$1", token.NoPos, "anchor unresolved: the deferred closure of runAction")
+		}
+		return
+	}
+	// skipped must imply "stream position unchanged"
+	okPos := false
+	for _, b := range cl.Blocks {
+		for _, in := range b.Instrs {
+			if st, ok := in.(*ssa.Store); ok && p.expr(st.Addr) == "^skipped" {
+				// path-sensitively: every way for the stored value to be true passes the position comparison
+				okPos = true
+				var must func(v ssa.Value, d int) bool
+				must = func(v ssa.Value, d int) bool {
+					v = p.resolve(v)
+					if d > 6 {
+						return false
+					}
+					switch x := v.(type) {
+					case *ssa.Const:
+						bv, isB := constBool(x)
+						return isB && !bv
+					case *ssa.BinOp:
+						return p.expr(x) == "(invoke:bitStream.drawn($t.s) == $drawn)"
+					case *ssa.Phi:
+						for i, e := range x.Edges {
+							if must(e, d+1) {
+								continue
+							}
+							// an edge that does not itself establish it must come from a block guarded by it
+							pred := x.Block().Preds[i]
+							if !holds(p.facts(pred.Instrs[len(pred.Instrs)-1]), "invoke:bitStream.drawn($t.s)", "==", "$drawn") {
+								return false
+							}
+						}
+						return true
+					}
+					return false
+				}
+				if !must(st.Val, 0) {
+					okPos = false
+				}
+				r.Check("runAction#skipped-means-no-bits", st.Pos(), okPos, "an action counts as skipped (retried in place) only if the stream position has not moved since it started",
+					"runAction derives 'skipped' without comparing the bitstream position ("+p.expr(st.Val)+"): an action that consumed bits in rejected (discarded) attempts — e.g. a Filter that ran out of tries — is retried inside the kept step, and the pruned recording replays against other bits")
+			}
+		}
+	}
+	// the capture is the stream position before the action
+	ra := r.MustFn("runAction")
+	if ra != nil {
+		okCap := false
+		for _, cs := range p.calls(ra) {
+			if d, ok := cs.Instr.(*ssa.Defer); ok {
+				for _, a := range d.Common().Args {
+					if p.expr(a) == "invoke:bitStream.drawn($t.s)" {
+						okCap = true
+					}
+				}
+			}
+		}
+		r.Check("runAction#position-captured", ra.Pos(), okCap, "the stream position is captured when the action starts", "runAction does not capture the stream position before the action")
+	}
+	if fn := r.MustFn("(*recordedBits).drawn"); fn != nil {
+		ok := true
+		for _, ret := range returnsOf(fn) {
+			ex := p.expr(p.res(ret, 0))
+			facts := p.facts(ret)
+			switch {
+			case ex == "builtin:len($rec.data)":
+				ok = ok && holds(facts, "$rec.persist", "==", "true")
+			case ex == "$rec.dataLen":
+				ok = ok && holds(facts, "$rec.persist", "==", "false")
+			default:
+				ok = false
+			}
+		}
+		r.Check("(*recordedBits).drawn", fn.Pos(), ok, "drawn() is the number of words drawn (len(data) when recording, dataLen otherwise)", "drawn() no longer reports the number of words drawn for both recording modes")
+	}
 }
